@@ -174,11 +174,33 @@ def creation(job):
                 if mx >= 0 and n > mx and 'exceeded:%s.%s' % (S, F) not in errs:
                     bad.append('TOLERANT: %d %s under a profile max of %d, validate() does not report it: %s' % (n, F, mx, errs[:5]))
             if mn >= 1:
-                m = fresh()
-                new_segment(m, S)
-                errs = [impl.canon_err(x) for x in m.validate(return_errors=True).errors]
-                if 'missing:%s.%s' % (S, F) not in errs:
-                    bad.append('profile makes %s.%s required, validate() of a segment without it does not report it: %s' % (S, F, errs[:5]))
+                # fewer occurrences than the profile's minimum (none; and, for a minimum of 2 or more, one)
+                for have in sorted({0, mn - 1}):
+                    m = fresh()
+                    sg_ = new_segment(m, S)
+                    try:
+                        for _ in range(have):
+                            sg_.add_field(F)
+                    except Exception:  # noqa
+                        continue
+                    errs = [impl.canon_err(x) for x in m.validate(return_errors=True).errors]
+                    if 'missing:%s.%s' % (S, F) not in errs:
+                        bad.append('profile requires %d x %s.%s, validate() of a segment holding %d does not report it: %s' % (mn, S, F, have, errs[:5]))
+            if not strict and S != 'MSH':
+                # a segment built on its own from the STANDARD tables and then attached: inside the profiled message it is judged by the profile
+                # (validate() hands every child the sub-reference of its parent's reference — seed C18-i let the child use its own)
+                for have, want in ([(mx + 1, 'exceeded:%s.%s' % (S, F))] if mx >= 0 else []) + ([(0, 'missing:%s.%s' % (S, F))] if mn >= 1 else []):
+                    m = fresh()
+                    free = Segment(S, version=v, validation_level=vlib.level(False))
+                    try:
+                        for _ in range(have):
+                            free.add_field(F)
+                        container(m, 'add').add(free)
+                    except Exception:  # noqa
+                        continue
+                    errs = [impl.canon_err(x) for x in m.validate(return_errors=True).errors]
+                    if want not in errs:
+                        bad.append('a free-standing %s holding %d x %s attached to the profiled message: validate() does not report %s: %s' % (S, have, F, want, errs[:5]))
         elif e[0] == 'C' and e[1] == 'd':
             # a component of a datatype made required / limited by the profile: every field of that datatype created under the profile carries it
             dt, comp, mn, mx = e[2], e[3], e[4], e[5]
@@ -334,7 +356,8 @@ def candidate_edits(rng, lib, st, ex_v):
         F = rng.choice(rows)
         k = rng.random()
         if k < .4:
-            out.append((('C', 's', S, F[0], rng.choice([0, 1, 1]), rng.choice([1, 1, 2, 3])), groups))
+            mn_ = rng.choice([0, 1, 1, 2])          # (a minimum of 2: no shipped table has one, a profile may — seed C04-i)
+            out.append((('C', 's', S, F[0], mn_, max(mn_, rng.choice([1, 1, 2, 3]))), groups))
         elif k < .55 and len(sref[1]) >= 2 and not any(gen.well_formed_ref(r_[1]) and len(r_[1]) == 6 and r_[1][2] == 'varies' for r_ in sref[1] if gen.is_seq(r_) and len(r_) == 4):
             # (a segment left without any field is not a profile the library can instantiate; a segment ending in a 'varies' field accepts every
             #  <SEG>_<n> child by the library's own rule, whatever its reference says, so a profile cannot forbid one there)
